@@ -13,6 +13,52 @@ def _build(name):
         e.weights = dict(append=20, iterappend=12, setitem=12, truncate=14, mode=3, reopen=6,
                          append_bad=3, truncate_bad=2, meta=8, recreate=8)
         return e
+    from .engines import raggedhist as RH
+    if name == 'C04':
+        return RH.RaggedHistory()
+    if name == 'C05':
+        e = RH.RaggedHistory()
+        e.prop = 'C05'
+        e.oracles = ('decoder',)
+        return e
+    from .core import Union
+    if name == 'C08':
+        a = AH.ArrayHistory()
+        a.oracles = ('readme',)
+        a.weights = dict(append=18, iterappend=10, setitem=4, truncate=14, mode=3, reopen=8,
+                         append_bad=3, truncate_bad=2, meta=22, recreate=10)
+        r = RH.RaggedHistory()
+        r.oracles = ('readme',)
+        r.weights = dict(append=26, iterappend=12, truncate=16, mode=3, reopen=10, append_bad=3,
+                         truncate_bad=2, getbad=0, iter=0, meta=8)
+        r.many_p = 0.45
+        return Union('C08', [(1, a), (1, r)], quick_runs=2500, thorough_runs=60000, batch=25)
+    if name == 'C13':
+        a = AH.ArrayHistory()
+        a.oracles = ('meta',)
+        a.weights = dict(append=2, iterappend=0, setitem=0, truncate=2, mode=3, reopen=10,
+                         append_bad=0, truncate_bad=0, meta=80, recreate=3)
+        r = RH.RaggedHistory()
+        r.oracles = ('meta',)
+        r.weights = dict(append=2, iterappend=0, truncate=2, mode=3, reopen=10, append_bad=0,
+                         truncate_bad=0, getbad=0, iter=0, meta=80)
+        r.create_empty_p = 0.05
+        return Union('C13', [(3, a), (1, r)], quick_runs=5000, thorough_runs=150000, batch=40)
+    if name == 'C11':
+        a = AH.ArrayHistory()
+        a.oracles = ('ro', 'model', 'fresh')
+        a.weights = dict(append=14, iterappend=8, setitem=14, truncate=10, mode=14, reopen=10,
+                         append_bad=2, truncate_bad=0, meta=22, recreate=0, delete=4)
+        a.reopen_modes = ('r', 'default', 'default', 'r+')
+        a.create_r_p = 0.5
+        r = RH.RaggedHistory()
+        r.oracles = ('ro', 'model', 'fresh')
+        r.weights = dict(append=18, iterappend=10, truncate=12, mode=14, reopen=10, append_bad=2,
+                         truncate_bad=0, getbad=0, iter=0, meta=22, delete=4)
+        r.reopen_modes = ('r', 'default', 'default', 'r+')
+        r.create_r_p = 0.5
+        r.create_empty_p = 0.1
+        return Union('C11', [(1, a), (1, r)], quick_runs=2500, thorough_runs=60000, batch=25)
     raise KeyError(name)
 
 
